@@ -373,8 +373,39 @@ for _pid, _t in EXTRA.items():
     CLAIMED[_pid]['text'] = CLAIMED[_pid]['text'].rstrip() + ' ' + _t
 CLOSURE = (' Every library function these units use through its contract is discharged from its real body by a unit of THIS check '
            '(tools/closure_audit.py; externals such as pynbt, BytesIO, struct, zlib, cryptography, requests are assumptions).')
+FRAMES = (' Every unit also carries frame obligations (kind "frame": the functions under contract must not change module- / class-level '
+          'containers, class attribute names, default-argument objects or a context they were given; failing WITHOUT a replayed '
+          'failing input = undecided, never a violation) and explores its environment beyond the happy path where the property '
+          'speaks about it (externals raising a base-class OSError at each call, a handler that reconnects, a listener that '
+          're-enters or changes shared state - directed interference at read points, not an exploration of interleavings).')
+EXTRA2 = {
+    'C01': 'Claimed in addition (rounds 8-13 of seeded changes): the whole lock discipline (call-site scan + forced write + flush of '
+           'disconnect() + write batch of _run), the connect model (_connect starts plain from any earlier state), the framing switch '
+           'with the mode changing while early outgoing listeners run, the id of a delivered packet following its context, a failing / '
+           'interrupted first send under the cipher wrapper.',
+    'C02': 'Also: instance-independence histories of parametrised types, and C02.optimised-interpreter (no truncation guard is an '
+           '`assert`; every strict prefix decoded in a `python -O` child process - bounded).',
+    'C04': 'Also claimed: byte-level units of the carrier types UnsignedLong / UnsignedByte (a short read raises), write_packet stamping '
+           'the connection context on the packet, one context taken through version histories (bounded).',
+    'C05': 'Also: JoinGame mode views (all setter orders x every supported version), map offsets over the full signed byte (D12), '
+           'write frame / read frame / write_packet units claimed as dependencies.',
+    'C06': 'Also: a committed baseline of the 82 collisions on known-but-unsupported versions (reported only, as the property '
+           'prescribes); a NEW collision on such a version fails id.injective-once-supported (the supported set is extensible at run time).',
+    'C08': 'Also: C08.tables.frame - closed-world scan: only initglobals (and private helpers only it calls) writes the derived tables.',
+    'C09': 'Also: the constructor follows a run-time extension of the tables; every exception other than EOF stays an error in the status fallback (family of representatives).',
+    'C12': 'Also: a failed write is not re-queued, a re-entrant flush (outgoing listener calling disconnect()) never gets the packet being written, flush under no / one / two networking threads and with shutdown() raising.',
+    'C13': 'Also: registration is ONE atomic list operation (interference injected at the read points of the shared list), duplicate registrations, dispatch histories.',
+    'C14': 'Also: a final handler that reconnects through the real _connect; handler registration under interference; thread started already interrupted.',
+    'C16': 'Also: shutdown must include the read direction (blocked reader), base-class OSError from send, hand-over from an interrupted successor.',
+    'C17': 'Also: the hash on EVERY join attempt when the session service answers with an error; bytes-like (bytearray) secret / key.',
+    'C18': 'Also: encrypt_token_and_secret called by position and by its documented parameter names; first-send fault under the cipher wrapper.',
+    'C19': 'Also: two tokens in one process (no shared default Profile).',
+    'C20': 'Also: partially initialised records (eq implies hash), failed apply leaves the tracker unchanged, user subclass of a library record.',
+}
+for _pid, _t in EXTRA2.items():
+    CLAIMED[_pid]['text'] = CLAIMED[_pid]['text'].rstrip() + ' ' + _t
 for _pid in CLAIMED:
-    CLAIMED[_pid]['note'] = CLAIMED[_pid]['note'].rstrip() + CLOSURE
+    CLAIMED[_pid]['note'] = CLAIMED[_pid]['note'].rstrip() + CLOSURE + FRAMES
 
 
 def main():
